@@ -535,3 +535,53 @@ def check_log_restore(ck, P, rid):
             ck.violated(rid, inst + ":cut", cuts[0].where, "the log is cut to %s entries instead of %s + 1: freed checkpoints stay listed or the restored one is dropped" % (X.show(v), chosen), cfg)
     else:
         ck.violated(rid, inst + ":cut", f.where, "the checkpoint log is not cut after the restored entry", cfg)
+
+
+def check_nonempty_before_last(ck, P, rid):
+    """fossil_lp_collect reads the LAST element of the history to start its scan.  The history can legally be empty when a collection
+    reaches the LP (a previous round reclaimed all of it, or a rollback emptied it and only anti-messages arrived since), so that read
+    must be preceded on every path by a test that the history is not empty."""
+    cfg = P.config
+    f = P.fn("fossil_lp_collect")
+    inst = "nonempty-before-last@fossil_lp_collect"
+    loads = []
+    for n in f.walk():
+        if n.k != "ArraySubscriptExpr" or Q.unevaluated(n) or "p_msgs" not in X.show(n.children[0]):
+            continue
+        loads.append(n)
+    if not loads:
+        ck.inconclusive(rid, inst, f.where, "no read of the history recognised", cfg)
+        return
+    g = f.cfg
+    first = [n for n in loads if g.position(n) is not None and not any(m is not n and g.position(m) is not None and g.dominates(m, n) for m in loads)]
+    bad = None
+    for n in first:
+        paths, complete = Q.path_conditions(f, n)
+        if not paths:
+            paths = [[]]
+        # variables that hold the element count (or count - k)
+        holders = {}
+        for v in f.walk():
+            if v.k == "VarDecl" and v.children and any("array_count" in x.macros for x in v.children[0].walk()) and "p_msgs" in X.show(v.children[0]):
+                holders[v.name] = v
+        for conds in paths:
+            proven = False
+            for core, t in conds:
+                c0 = X.strip(core)
+                txt = X.show(c0)
+                about_count = ("p_msgs" in txt and "count" in txt) or any(x.k == "DeclRefExpr" and x.name in holders for x in c0.walk())
+                if not about_count:
+                    continue
+                # (count == 0) false, (!count) false, (count != 0) true, (count) true, (count > 0) true
+                if c0.k == "BinaryOperator" and c0.op in ("==", "!=") and (X.is_zero(c0.children[1]) or X.is_zero(c0.children[0])):
+                    proven = proven or ((c0.op == "!=") == t)
+                elif c0.k == "BinaryOperator" and c0.op in (">", ">=") and X.const_int(c0.children[1]) in (0, 1):
+                    proven = proven or (t and not (c0.op == ">=" and X.const_int(c0.children[1]) == 0))
+                elif c0.k in ("DeclRefExpr", "MemberExpr"):
+                    proven = proven or t
+            if not proven and bad is None:
+                bad = n
+    if bad is not None:
+        ck.violated(rid, inst, bad.where, "the history is read (`%s`) on a path that has not established that it is not empty: an LP whose history was reclaimed completely (or emptied by a rollback) reads the element before the array and scans from index 2^32 - 1" % X.show(bad)[:60], cfg)
+    else:
+        ck.holds(rid, inst, first[0].where if first else f.where, "the first read of the history is reached only when its element count was tested non-zero", cfg)
